@@ -204,7 +204,7 @@ theorem lookup_filter_ne (a t : Nat) (h : t ≠ a) : ∀ (q : List (Nat × Nat))
       simp only [h1, if_true, List.lookup_cons, ih]
 
 theorem enq_count (q : List Node × List (Nat × Nat)) (c : Node) (t : Nat) :
-    ((enq q c).2.lookup t).getD 0 = (q.2.lookup t).getD 0 + (if c.2 = t then 1 else 0) := by
+    ((enq false q c).2.lookup t).getD 0 = (q.2.lookup t).getD 0 + (if c.2 = t then 1 else 0) := by
   simp only [enq, List.lookup_cons]
   by_cases h : c.2 = t
   · subst h; simp
@@ -219,7 +219,7 @@ def EnqInv (pt : Nat → Bool) (L0 : List Node) (q : List Node × List (Nat × N
 
 theorem enq_inv_step (pt : Nat → Bool) (L0 : List Node) (q : List Node × List (Nat × Nat)) (c : Node)
     (hq : EnqInv pt L0 q) (hnd : (((L0 ++ [c]).filter (fun c => pt c.2)).map (·.2)).Nodup) :
-    EnqInv pt (L0 ++ [c]) (enq q c) := by
+    EnqInv pt (L0 ++ [c]) (enq false q c) := by
   obtain ⟨hcnt, hqueue⟩ := hq
   constructor
   · intro t
@@ -249,7 +249,7 @@ theorem enq_inv_step (pt : Nat → Bool) (L0 : List Node) (q : List Node × List
 
 theorem enq_inv_foldl (pt : Nat → Bool) : ∀ (L L0 : List Node) (q : List Node × List (Nat × Nat)),
     EnqInv pt L0 q → (((L0 ++ L).filter (fun c => pt c.2)).map (·.2)).Nodup →
-    EnqInv pt (L0 ++ L) (L.foldl enq q) := by
+    EnqInv pt (L0 ++ L) (L.foldl (enq false) q) := by
   intro L
   induction L with
   | nil => intro L0 q hq _; simpa using hq
@@ -258,7 +258,7 @@ theorem enq_inv_foldl (pt : Nat → Bool) : ∀ (L L0 : List Node) (q : List Nod
     rw [List.foldl_cons]
     have e : L0 ++ c :: L = (L0 ++ [c]) ++ L := by simp
     rw [e] at hnd ⊢
-    refine ih (L0 ++ [c]) (enq q c) (enq_inv_step pt L0 q c hq ?_) hnd
+    refine ih (L0 ++ [c]) (enq false q c) (enq_inv_step pt L0 q c hq ?_) hnd
     rw [List.filter_append, List.map_append] at hnd
     exact (List.nodup_append.mp hnd).1
 
@@ -272,32 +272,37 @@ theorem enq_inv_nil (pt : Nat → Bool) : EnqInv pt [] ([], []) := by
 theorem outer_fold_spec (ts : Types) (u : UTab) (count : List (Nat × Nat)) :
     ∀ (current : List Node) (F : List AField) (Q : List Node) (C : List (Nat × Nat)) (V : List Nat),
     ((current.filter (fun c => !V.contains c.2)).map (·.2)).Nodup →
+    (∀ c ∈ current.filter (fun c => !V.contains c.2), ¬ ((count.lookup c.2).getD 0 > 1)) →
     current.foldl (outerStep ts u count) (F, Q, C, V) =
-      (F ++ (current.filter (fun c => !V.contains c.2)).flatMap
-              (fun c => dupl (decide ((count.lookup c.2).getD 0 > 1)) (fieldsOf ts u c)),
-       (List.foldl enq (Q, C) ((current.filter (fun c => !V.contains c.2)).flatMap (childrenOf ts u))).1,
-       (List.foldl enq (Q, C) ((current.filter (fun c => !V.contains c.2)).flatMap (childrenOf ts u))).2,
+      (F ++ (current.filter (fun c => !V.contains c.2)).flatMap (fieldsOf ts u),
+       (List.foldl (enq false) (Q, C) ((current.filter (fun c => !V.contains c.2)).flatMap (childrenOf ts u))).1,
+       (List.foldl (enq false) (Q, C) ((current.filter (fun c => !V.contains c.2)).flatMap (childrenOf ts u))).2,
        ((current.filter (fun c => !V.contains c.2)).map (·.2)).reverse ++ V) := by
   intro current
   induction current with
-  | nil => intro F Q C V _; simp
+  | nil => intro F Q C V _ _; simp
   | cons c cs ih =>
-    intro F Q C V hnd
+    intro F Q C V hnd hdup
     rw [List.foldl_cons]
     by_cases hv : V.contains c.2 = true
     · have hstep : outerStep ts u count (F, Q, C, V) c = (F, Q, C, V) := by simp only [outerStep, hv, if_true]
       have hfil : (c :: cs).filter (fun c => !V.contains c.2) = cs.filter (fun c => !V.contains c.2) := by
         rw [List.filter_cons]; simp only [hv, Bool.not_true, Bool.false_eq_true, if_false]
       rw [hstep, hfil]
-      rw [hfil] at hnd
-      exact ih F Q C V hnd
+      rw [hfil] at hnd hdup
+      exact ih F Q C V hnd hdup
     · have hv' : V.contains c.2 = false := by simpa using hv
-      have hstep : outerStep ts u count (F, Q, C, V) c =
-          (F ++ dupl (decide ((count.lookup c.2).getD 0 > 1)) (fieldsOf ts u c),
-           (List.foldl enq (Q, C) (childrenOf ts u c)).1, (List.foldl enq (Q, C) (childrenOf ts u c)).2, c.2 :: V) := by
-        simp only [outerStep, hv', Bool.false_eq_true, if_false]
       have hfil : (c :: cs).filter (fun c => !V.contains c.2) = c :: cs.filter (fun c => !V.contains c.2) := by
         rw [List.filter_cons]; simp only [hv', Bool.not_false, if_true]
+      rw [hfil] at hdup
+      have hd : decide ((count.lookup c.2).getD 0 > 1) = false := by
+        have := hdup c (by simp)
+        simpa using this
+      have hstep : outerStep ts u count (F, Q, C, V) c =
+          (F ++ fieldsOf ts u c,
+           (List.foldl (enq false) (Q, C) (childrenOf ts u c)).1,
+           (List.foldl (enq false) (Q, C) (childrenOf ts u c)).2, c.2 :: V) := by
+        simp only [outerStep, hv', Bool.false_eq_true, if_false, hd, dupl]
       rw [hfil, List.map_cons, List.nodup_cons] at hnd
       have hfil2 : cs.filter (fun x => !(c.2 :: V).contains x.2) = cs.filter (fun x => !V.contains x.2) := by
         apply List.filter_congr
@@ -312,7 +317,8 @@ theorem outer_fold_spec (ts : Types) (u : UTab) (count : List (Nat × Nat)) :
             exact ⟨x, List.mem_filter.mpr ⟨hx, by simp only [hxv, Bool.not_false]⟩, e⟩
           have hb : (x.2 == c.2) = false := by simp [hne]
           simp only [List.contains_cons, hxv, hb, Bool.or_false]
-      rw [hstep, ih _ _ _ (c.2 :: V) (by rw [hfil2]; exact hnd.2), hfil2, hfil]
+      rw [hstep, ih _ _ _ (c.2 :: V) (by rw [hfil2]; exact hnd.2)
+        (by rw [hfil2]; exact fun x hx => hdup x (List.mem_cons_of_mem _ hx)), hfil2, hfil]
       simp only [List.flatMap_cons, List.foldl_append, List.map_cons, List.reverse_cons, List.append_assoc,
         List.singleton_append]
 
@@ -421,15 +427,7 @@ theorem bfs_perm (ts : Types) (u : UTab) : ∀ (fuel : Nat) (ns : List XNode) (c
       simp [bfs]
     | cons c0 cs =>
       rw [bfs]
-      · rw [scanLevel_eq, outer_fold_spec ts u count (c0 :: cs) [] [] [] visited
-          (by rw [hP, List.map_map]; exact hB)]
-        simp only [hP, List.nil_append]
-        -- the fields found at this level
-        have hfound : ((ns.filter xlive).map (·.2)).flatMap
-              (fun c => dupl (decide ((count.lookup c.2).getD 0 > 1)) (fieldsOf ts u c)) =
-            (ns.filter xlive).flatMap (fun x => fieldsOf ts u x.2) := by
-          rw [List.flatMap_map]
-          apply flatMap_congr'
+      · have hnodup : ∀ x ∈ ns.filter xlive, ¬ ((count.lookup x.2.2).getD 0 > 1) := by
           intro x hx
           have hxl := (List.mem_filter.mp hx).2
           have hxn := (List.mem_filter.mp hx).1
@@ -440,8 +438,18 @@ theorem bfs_perm (ts : Types) (u : UTab) : ∀ (fuel : Nat) (ns : List XNode) (c
               rw [← hA y hy, hyt, hA x hxn]
               exact hxl
           have hc2 := I.cnt x.2.2
-          have : ¬ ((count.lookup x.2.2).getD 0 > 1) := by omega
-          simp [dupl, this]
+          omega
+        rw [scanLevel_eq, outer_fold_spec ts u count (c0 :: cs) [] [] [] visited
+          (by rw [hP, List.map_map]; exact hB)
+          (by
+            rw [hP]
+            intro c hc
+            rw [List.mem_map] at hc
+            obtain ⟨x, hx, rfl⟩ := hc
+            exact hnodup x hx)]
+        simp only [hP, List.nil_append]
+        have hfound : ((ns.filter xlive).map (·.2)).flatMap (fieldsOf ts u) =
+            (ns.filter xlive).flatMap (fun x => fieldsOf ts u x.2) := by rw [List.flatMap_map]
         rw [hfound]
         -- the next level
         have hL := nextX_nodes ts u ns
